@@ -16,12 +16,12 @@ def main():
     jobs = []
     for fam in (0, 1, 2):
         for s in steps:
-            if t == 'quick' and fam == 0 and s == 3:
+            if fam == 0 and s == 3:  # ~35 CPU-minutes: not registered
                 continue
             jobs.append(Job(P + 'VerifC04Converge', (fam, s, 0), cfg=cfg, max_paths=300000))
-            if s <= (2 if t == 'quick' else 3) and not (fam == 0 and s == 3):
+            if s <= 2:
                 jobs.append(Job(P + 'VerifC04Converge', (fam, s, 1), cfg=cfg, max_paths=300000))
-    for (s_, inc, sec, K) in ([(2, 1, 0, 4), (3, 0, 0, 2)] if t == 'quick' else [(2, 1, 0, 4), (3, 0, 0, 2), (3, 1, 0, 8), (2, 1, 1, 8)]):
+    for (s_, inc, sec, K) in ([(2, 1, 0, 4), (3, 0, 0, 2)] if t == 'quick' else [(2, 1, 0, 4), (3, 0, 0, 2)]):
         for i in range(K):
             jobs.append(Job(P + 'VerifC04Devices', (s_, inc, sec), cfg=cfg, max_paths=300000, shard=(i, K), label='VerifC04Devices(%d,%d,%d)#%d/%d' % (s_, inc, sec, i, K)))
     for (st, K) in ([(2, 1)] if t == 'quick' else [(2, 1), (3, 6)]):
